@@ -365,6 +365,7 @@ type StreamSet interface {
 	IsSubsetByKey(o StreamSet) bool
 	IsSupersetByKey(o StreamSet) bool
 	StreamAt(k string) Stream // nil if none
+	MapID() uintptr           // identity of the Go map behind the handle
 }
 
 type GSS struct {
@@ -392,6 +393,12 @@ func gss(o StreamSet) *fpgo.StreamSetDef[string, int] {
 
 func (s GSS) Family() string  { return "generic" }
 func (s GSS) ID() interface{} { return s.S }
+func (s GSS) MapID() uintptr {
+	if s.S == nil || s.S.MapSetDef == nil {
+		return 0
+	}
+	return reflect.ValueOf(s.S.MapSetDef).Pointer()
+}
 func (s GSS) Content() map[string][]int {
 	out := map[string][]int{}
 	for k, v := range s.S.MapSetDef {
@@ -455,6 +462,12 @@ func iss(o StreamSet) *fpgo.StreamSetForInterfaceDef {
 
 func (s ISS) Family() string  { return "interface{}" }
 func (s ISS) ID() interface{} { return s.S }
+func (s ISS) MapID() uintptr {
+	if s.S == nil || s.S.SetForInterfaceDef == nil {
+		return 0
+	}
+	return reflect.ValueOf(s.S.SetForInterfaceDef).Pointer()
+}
 func (s ISS) Content() map[string][]int {
 	out := map[string][]int{}
 	for k, v := range s.S.SetForInterfaceDef {
